@@ -1,8 +1,8 @@
 (* Extraction of the executable Refs model for the correspondence check.
    Directives in force: those of ExtrOcamlBasic only; N / positive / nat stay inductive. *)
 From Coq Require Import NArith List.
-From Blue Require Import Refs.Model.
+From Blue Require Import Refs.Model Refs.ModelLock.
 Require Import ExtrOcamlBasic.
 Extraction Language OCaml.
-Extraction "../ocaml/refs/gen_refs.ml" sys0 step run live_strs pc_get orphan_scan intent tent_present v_entries
+Extraction "../ocaml/refs/gen_refs.ml" sys0 step run fstep live_strs pc_get orphan_scan intent tent_present v_entries
   frag_state N.of_nat N.to_nat N.add N.mul N.div_eucl.
